@@ -15,7 +15,7 @@ META = {
             "cuts; the real WAL is decoded, a fresh Head replays a copy of checkpoint+segments and another the retained "
             "untruncated log, both are compared with the spec's prediction, and TLC evaluates RefClosed on the decoded "
             "real entries.",
-    "note": "Head side only (agent DB: see C48). Bounded: 2-3 label sets, scrape clock <= 7, histories <= 5 steps exhaustively, "
+    "note": "Head side in full; the agent WAL is covered by the AgentDb.tla skeletons shared with C48 (churn, duplicate refs, open appender). Bounded: 2-3 label sets, scrape clock <= 7, histories <= 5 steps exhaustively, "
             "<= 10 along scenario skeletons, <= 16 by simulation; float samples only (histogram records share the same "
             "checkpoint filter); one head chunk per series (huge chunk range), no OOO window, no chunk snapshots; segment "
             "cuts are forced with WL.NextSegment instead of by size. The untruncated log is the set of all segment files "
@@ -100,6 +100,10 @@ def run(ctx):
                                   "for its ref (class %s)" % (rc["id"], json.dumps(rc["first"]), rc["T"], cl),
                                   "refclosed:" + cl, {"behaviour": behs[int(rc["id"])], "orphan": rc["first"]})
         ctx.log("trace validation: %d real logs, %d orphan classes reported" % (tv.generated - 1, n))
+    # (M)+(R)+(T) the agent WAL (C15's statement covers server *and* agent storage): AgentDb.tla skeletons that exercise
+    # garbage collection, duplicate refs and checkpoints, replayed into agent.DB; RefClosed / AcceptedKept on the real entries
+    import C48
+    C48.agent_part(ctx, ("MC_churn.cfg", "MC_dup.cfg", "MC_open.cfg"), 0, 0, sig_prefix="agent:")
     ctx.assumptions += [
         "bounded model (see META.note); segment cuts forced with WL.NextSegment",
         "predicted checkpoint/segment entries, refs, unknown-ref counters are drift-only; verdicts come from the replayed "
